@@ -13,7 +13,7 @@ import (
 // ---------------------------------------------------------------------------------------------
 
 // c10Values: non-empty, not '-' prefixed, not '=' prefixed (the precondition of C10).
-var c10Values = []string{"v", "w", "7", "x", "a", "b", "true", "v=w", "é", "o"}
+var c10Values = []string{"v", "w", "7", "x", "a", "b", "true", "v=w", "é", "o", "%d", "50%", "a b"}
 
 // MutateItems applies 0-2 item level mutations (drop, duplicate, insert, swap).
 func MutateItems(t *rapid.T, d *Decls, items []Item) []Item {
